@@ -37,15 +37,29 @@ class Ref:
     def __eq__(self, o): return isinstance(o, Ref) and self.cell == o.cell and self.path == o.path
     def __hash__(self): return hash((self.cell, self.path))
 class SliceRef:
-    """&[T] / &mut [T]: a window [start, start+count) of the Seq stored at (cell, path)"""
-    __slots__ = ('cell', 'path', 'start', 'count')
-    def __init__(self, cell, path, start, count): self.cell = cell; self.path = tuple(path); self.start = start; self.count = count
-    def __repr__(self): return 'SliceRef(%s,%s,%d+%d)' % (self.cell, list(self.path), self.start, self.count)
+    """&[T] / &mut [T]: a window of the Seq stored at (cell, path).  Without `shape`: elements
+    [start, start+count).  With `shape` (d1, .., dk): `count` elements of prod(shape) scalars each,
+    the first at flat offset `start` (a SIMD re-interpretation of a scalar buffer)."""
+    __slots__ = ('cell', 'path', 'start', 'count', 'shape')
+    def __init__(self, cell, path, start, count, shape=None): self.cell = cell; self.path = tuple(path); self.start = start; self.count = count; self.shape = shape
+    def width(self):
+        w = 1
+        for d in (self.shape or ()): w *= d
+        return w
+    def elem_ref(self, k):
+        if self.shape is None: return Ref(self.cell, self.path + (('i', self.start + k),))
+        return Ref(self.cell, self.path + (('view', self.start + k * self.width(), self.shape),))
+    def __repr__(self): return 'SliceRef(%s,%s,%d+%d,%s)' % (self.cell, list(self.path), self.start, self.count, self.shape)
+class Iter:
+    """an iterator with a concrete, finite list of pending items and lazily applied map stages"""
+    __slots__ = ('items', 'stages')
+    def __init__(self, items, stages=()): self.items = tuple(items); self.stages = tuple(stages)
+    def __repr__(self): return 'Iter(%d items, %d stages)' % (len(self.items), len(self.stages))
 class Closure:
-    __slots__ = ('cty', 'f')
-    def __init__(self, cty, caps): self.cty = cty; self.f = tuple(caps)
+    __slots__ = ('cty', 'f', 'parent')
+    def __init__(self, cty, caps, parent=None): self.cty = cty; self.f = tuple(caps); self.parent = parent
     def set(self, i, v):
-        l = list(self.f); l[i] = v; return Closure(self.cty, l)
+        l = list(self.f); l[i] = v; return Closure(self.cty, l, self.parent)
     def __repr__(self): return 'Closure(%s,%r)' % (self.cty, self.f)
 class Opaque:
     __slots__ = ('tag',)
@@ -155,6 +169,8 @@ class VM:
                 else: raise VMError('index %r of %r' % (p, v))
             elif k == 'sub':
                 v = Seq(v.items[p[1]:p[2]])
+            elif k == 'view':
+                v = _reshape(v.items[p[1]:p[1] + _prod(p[2])], p[2])
             else: raise VMError('path elem %r' % (p,))
         return v
 
@@ -173,6 +189,9 @@ class VM:
                 items = list(v.items); items[p[1]] = upd(items[p[1]], path[1:]); return Seq(items)
             if p[0] == 'sub':
                 items = list(v.items); sub = upd(Seq(items[p[1]:p[2]]), path[1:]); items[p[1]:p[2]] = list(sub.items); return Seq(items)
+            if p[0] == 'view':
+                items = list(v.items); w = _prod(p[2])
+                sub = upd(_reshape(items[p[1]:p[1] + w], p[2]), path[1:]); items[p[1]:p[1] + w] = _flatten(sub); return Seq(items)
             raise VMError('write path %r' % (p,))
         m.mem[cell] = upd(m.mem.get(cell), path)
 
@@ -184,7 +203,7 @@ class VM:
             if k == 'deref':
                 r = self.read_at(m, cell, path)
                 if isinstance(r, Ref): cell, path = r.cell, list(r.path)
-                elif isinstance(r, SliceRef): cell, path = r.cell, list(r.path) + [('sub', r.start, r.start + r.count)]
+                elif isinstance(r, SliceRef) and r.shape is None: cell, path = r.cell, list(r.path) + [('sub', r.start, r.start + r.count)]
                 else: raise VMError('deref of %r at %s' % (r, place))
             elif k == 'field': path.append(('f', p[1]))
             elif k == 'downcast': pass
@@ -238,9 +257,9 @@ class VM:
         if m: return Str(m.group(1))
         if t.startswith('ZeroSized: '):
             ty = t[len('ZeroSized: '):]
-            if ty.startswith('{closure@'): return Closure(ty, ())
+            if ty.startswith('{closure@'): return Closure(ty, (), fn.name if fn is not None else None)
             return Opaque(t)
-        if t.startswith('{closure@'): return Closure(t, ())
+        if t.startswith('{closure@'): return Closure(t, (), fn.name if fn is not None else None)
         m = re.match(r'^(.*?)::\{constant#\d+\}: usize = const (\d+)_usize$', t)
         if m: return int(m.group(2))
         # unit enum variant constants / unit structs: `std::option::Option::<X>::None`, `PhantomData::<..>`
@@ -432,7 +451,7 @@ class VM:
             kind = rv[1]
             if kind == 'tuple': return Struct(ops)
             if kind == 'array': return Seq(ops)
-            if kind == 'closure': return Closure(rv[2], ops)
+            if kind == 'closure': return Closure(rv[2], ops, fn.name)
             if kind == 'adt':
                 base = strip_generics(rv[2]); segs = [s.strip() for s in base.split('::')]
                 if len(segs) >= 2 and segs[-2] in self.enums and segs[-1] in self.enums[segs[-2]]:
@@ -502,7 +521,9 @@ class VM:
                 out = h(self, m, callee, args)
                 if out is not NotImplemented:
                     return out
-        from . import intrinsics
+        from . import intrinsics, iters
+        out = iters.dispatch(self, m, callee, args)
+        if out is not NotImplemented: return out
         out = intrinsics.dispatch(self, m, callee, args)
         if out is not NotImplemented: return out
         fn = self.resolve_callee(callee)
@@ -517,7 +538,7 @@ class VM:
         if isinstance(cv, FnItem):
             return self.call(m, cv.text, args)
         if not isinstance(cv, Closure): raise VMError('call of non-closure %r' % (cv,))
-        fn = self.mir.closure_of(cv.cty)
+        fn = self.mir.closure_of(cv.cty, cv.parent)
         a0ty = fn.args[0][1]
         if a0ty.startswith('&'):
             if ref is None: ref = Ref(m.alloc(cv))
@@ -547,7 +568,10 @@ class VM:
                 if k == 'nop': continue
                 if k == 'assign':
                     dty = fn.locals.get(st.a.local) if not st.a.proj else None
-                    v = self.rvalue(m, fid, fn, st.b, dty)
+                    if st.b[0] == 'aggregate' and st.b[1] == 'closure':
+                        v = self.closure_aggregate(m, fid, fn, stmts, i - 1, st)
+                    else:
+                        v = self.rvalue(m, fid, fn, st.b, dty)
                     self.write_place(m, fid, st.a, v); continue
                 if k == 'goto': bb, i = st.a, 0; continue
                 if k == 'return':
@@ -621,6 +645,44 @@ class VM:
                 if k == 'resume': raise VMError('resume executed in %s' % fn.name)
                 raise Unmodelled('statement kind ' + k)
 
+    def closure_captures(self, cfn):
+        """number of captured upvars a closure body addresses through _1"""
+        n = getattr(cfn, '_ncaps', None)
+        if n is not None: return n
+        n = 0
+        byref = cfn.args[0][1].startswith('&')
+        pat = re.compile(r'\(\(\*_1\)\.(\d+): ' if byref else r'\(_1\.(\d+): ')
+        for raw in cfn._lines:
+            for mm in pat.finditer(raw): n = max(n, int(mm.group(1)) + 1)
+        cfn._ncaps = n
+        return n
+
+    def closure_aggregate(self, m, fid, fn, stmts, idx, st):
+        """the MIR printer zips capture *names* with operands and drops operands when one variable is captured
+        by several disjoint places (`out.0`, `out.1`): recover them from the assignments immediately before."""
+        ops = list(st.b[3])
+        cfn = self.mir.closure_of(st.b[2], fn.name)
+        need = self.closure_captures(cfn)
+        if need > len(ops):
+            prev = []
+            j = idx - 1
+            while j >= 0 and len(prev) < need:
+                p = stmts[j]
+                if p.kind == 'nop': j -= 1; continue
+                if p.kind == 'assign' and not p.a.proj and p.b[0] in ('ref', 'use'): prev.append(p.a.local); j -= 1; continue
+                break
+            prev = list(reversed(prev))
+            listed = [o[1].local for o in ops if o[0] in ('move', 'copy') and not o[1].proj]
+            # the listed operands must be a subsequence of the recovered temporaries, which must be consecutive locals
+            it = iter(prev)
+            if len(prev) != need or len(listed) != len(ops) or not all(any(x == y for y in it) for x in listed):
+                raise Unmodelled('closure aggregate with dropped captures cannot be recovered: %s' % st.text)
+            nums = [int(x[1:]) for x in prev]
+            if nums != list(range(nums[0], nums[0] + need)): raise Unmodelled('closure capture temporaries not consecutive: %s' % st.text)
+            ops = [('move', Place(x, ())) for x in prev]
+        vals = [self.operand(m, fid, o, fn) for o in ops]
+        return Closure(st.b[2], vals, fn.name)
+
     def _pop(self, m, fid):
         m.depth -= 1
         for key in [k for k in m.mem if k[0] == fid]: del m.mem[key]
@@ -629,6 +691,21 @@ class VM:
     def run(self, fn, args, m=None):
         m = m or Machine()
         return list(self.exec_fn(m, fn, args))
+
+def _prod(shape):
+    w = 1
+    for d in shape: w *= d
+    return w
+def _reshape(items, shape):
+    if len(shape) == 1: return Seq(items)
+    w = _prod(shape[1:])
+    return Seq([_reshape(items[k * w:(k + 1) * w], shape[1:]) for k in range(shape[0])])
+def _flatten(v):
+    if isinstance(v, Seq):
+        out = []
+        for x in v.items: out += _flatten(x)
+        return out
+    return [v]
 
 def ret(m, v): return [(m, 'ret', v)]
 def panic(m, what): return [(m, 'panic', what)]
